@@ -471,6 +471,12 @@ theorem specApiOk_of_wellFormed (spec : GateSpecification) (hw : QV.C04.specOk s
     rw [Bool.and_eq_true, Bool.and_eq_true]
     exact ⟨⟨all_finiteLits _ hg1.1.2, all_noPlaceholder_of _ hg1.2 (by simpa using hp g hg)⟩, h1.2⟩
 
+theorem body_all_lineKind (body : List Instruction) (h1 : wellFormeds body = true)
+    (h2 : body.all bodyKind = true) (h3 : hasPlaceholders body = false) : body.all lineKind = true := by
+  rw [List.all_eq_true]
+  intro j hj
+  exact apiLineKind_lineKind (body_facts body h1 h2 h3 j hj).2.2
+
 /-- an API-built instruction of the proved kinds lies in C02's `provedKind` -/
 theorem provedKind_of_api (i : Instruction) (hw : wellFormed i = true) (hp : hasPlaceholder i = false)
     (hk : apiKind i = true) : provedKind i = true := by
@@ -491,12 +497,12 @@ theorem provedKind_of_api (i : Instruction) (hw : wellFormed i = true) (hp : has
   | measureCalibrationDefinition id body =>
     simp only [wellFormed, Bool.and_eq_true] at hw
     simp only [hasPlaceholder, Bool.or_eq_false_iff] at hp
-    have := hbody body hw.2 hw.1.2 hp.2
+    have := bodyOk1_of_all_lineKind (hbody body hw.2 hw.1.2 hp.2)
     simp [provedKind, nlKind, this]
   | circuitDefinition n ps qs body =>
     simp only [wellFormed, Bool.and_eq_true] at hw
     simp only [hasPlaceholder] at hp
-    have := hbody body hw.2 hw.1.2 hp
+    have := bodyOk1_of_all_lineKind (hbody body hw.2 hw.1.2 hp)
     simp [provedKind, nlKind, this]
   | gateDefinition g =>
     obtain ⟨name, ps, spec⟩ := g
@@ -521,6 +527,8 @@ theorem provedKind_of_api (i : Instruction) (hw : wellFormed i = true) (hp : has
 theorem shapeOk_of_api (F : NumFmt) (i : Instruction) (hw : wellFormed i = true) (hp : hasPlaceholder i = false)
     (hk : apiKind i = true) : shapeOk F i = true := by
   cases i with
+  | calibrationDefinition id body =>
+    simp only [wellFormed, Bool.and_eq_true] at hw; exact hw.1.1.2
   | measureCalibrationDefinition id body =>
     simp only [wellFormed, Bool.and_eq_true] at hw; exact hw.1.1.2
   | circuitDefinition n ps qs body =>
@@ -588,14 +596,12 @@ theorem rt_of_apiKind (F : NumFmt) (d : Nat) (i : Instruction) (hw : wellFormed 
         | string s => rfl
         | expression x => rw [hv] at this; exact this) hd).toL
   | calibrationDefinition id body =>
-    have hbk : blockKind (.calibrationDefinition id body) = true := by
-      rcases provedKind_cases hpk with h | h
-      · exact h
-      · simp [nlKind] at h
-    have e := lineToks_of_blockKind F _ hbk hn
-    rw [e] at hd ⊢
     simp only [wellFormed, Bool.and_eq_true, Bool.not_eq_true', List.isEmpty_eq_false_iff] at hw
     simp only [hasPlaceholder, Bool.or_eq_false_iff] at hp
+    have hbk : blockKind (.calibrationDefinition id body) = true := by
+      simp [blockKind, defKind, lineKind, body_all_lineKind body hw.2 hw.1.2 hp.2]
+    have e := lineToks_of_blockKind F _ hbk hn
+    rw [e] at hd ⊢
     simp only [numTokInstr, Bool.and_eq_true] at hn
     exact (rt_cal_of F d id body normLine (all_finiteLits _ hw.1.1.1.1.2)
       (all_noPlaceholder_of _ hw.1.1.1.2 hp.1) hn.1 hw.1.1.2
